@@ -11,6 +11,6 @@ Extraction "model.ml"
   decode width output_size offsets
   properties3d properties2d temperature3d composition3d grains3d temperature2d composition2d grains2d
   cross_dir map2d cartesian_to_spherical spherical_to_cartesian great_circle_distance
-  approx polygon_contains polygon_contains_impl find_closest_points surface_local_value in_triangle
+  approx merge_values values_min values_max polygon_contains polygon_contains_impl find_closest_points surface_local_value in_triangle
   area_to_feature plume_to_feature plume_rel_distance
   bezier_build bezier_eval closest_point_cartesian.
